@@ -97,8 +97,11 @@ PROPS = {
     "C15": {
         "rule": "real thread_names_stream::write on a synthetic dumper: every subset of unnamed threads for n ≤ 6 (quick) / 8 (thorough), "
                 "random lists of 1 … 32 threads with 0-75 % unnamed, names of length 0 … 15 incl. non-ASCII, astral, leading/trailing whitespace, "
-                "random bytes already in the image. Non-trivial = mixed list (some named, some unnamed); distinct = distinct name-length patterns.",
-        "expected_tags": ["mixed", "all.named", "none.named", "name.empty", "name.astral"],
+                "random bytes already in the image. Non-trivial = mixed list (some named, some unnamed); distinct = distinct name-length patterns."
+                " Plus real dumps of live targets whose threads carry empty, white-space, non-ASCII and default names: every record names a listed "
+                "thread once with the kernel's comm (read independently, trailing white space trimmed), in thread-list order, and every listed thread "
+                "with a readable name has a record.",
+        "expected_tags": ["mixed", "all.named", "none.named", "name.empty", "name.astral", "name.checked", "name.empty", "name.nonascii"],
         "trusted_base": ["str::encode_utf16 (units are taken from the real encoder; C16 covers the encoder model)"],
         "assumptions": ["thread ids below 2^31 (pid_t), image below 4 GiB"],
         "explanation": "C15 theorems over the Lean model of thread_names_stream::write: exact byte layout for every thread list (count ‖ one record per named "
